@@ -35,11 +35,24 @@ var ModuleName = []string{"flow", "isolation", "hotspot", "circuitbreaker", "sys
 const (
 	DeclinedCbStrategy  = cb.Strategy(101)
 	DeclinedHotBehavior = hotspot.ControlBehavior(101)
+	// ... and strategies whose generators panic: a load that reaches them is abandoned as a whole
+	PanickingCbStrategy  = cb.Strategy(102)
+	PanickingHotBehavior = hotspot.ControlBehavior(102)
 )
 
 func init() {
 	if err := cb.SetCircuitBreakerGenerator(DeclinedCbStrategy, func(*cb.Rule, interface{}) (cb.CircuitBreaker, error) {
 		return nil, fmt.Errorf("declined")
+	}); err != nil {
+		panic(err)
+	}
+	if err := cb.SetCircuitBreakerGenerator(PanickingCbStrategy, func(*cb.Rule, interface{}) (cb.CircuitBreaker, error) {
+		panic("this strategy cannot be built")
+	}); err != nil {
+		panic(err)
+	}
+	if err := hotspot.SetTrafficShapingGenerator(PanickingHotBehavior, func(*hotspot.Rule, *hotspot.ParamsMetric) hotspot.TrafficShapingController {
+		panic("this behaviour cannot be built")
 	}); err != nil {
 		panic(err)
 	}
@@ -51,7 +64,7 @@ func init() {
 }
 
 // NumVariants per module (0,1 valid; others invalid).
-var NumVariants = []int{14, 5, 11, 12, 6, 8}
+var NumVariants = []int{14, 5, 12, 13, 6, 8}
 
 type RS struct {
 	M   int  `json:"m"`
@@ -101,6 +114,12 @@ func (r RS) Valid() bool {
 // NotANumber: the variant carries a NaN (such a rule is not even equal to itself, and cannot be written in JSON).
 func (r RS) NotANumber() bool {
 	return !r.Nil && ((r.M == Flow && r.Var == 12) || (r.M == Breaker && r.Var == 11) || (r.M == System && r.Var == 5) || (r.M == Outlier && r.Var == 7))
+}
+
+// Aborts: a load that gets as far as building this rule is abandoned as a whole (its generator panics): it
+// returns an error and changes nothing.
+func (r RS) Aborts() bool {
+	return !r.Nil && r.Res >= 0 && ((r.M == Hotspot && r.Var == 11) || (r.M == Breaker && r.Var == 12))
 }
 
 // NotJSON: the variant cannot be written in JSON.
@@ -261,6 +280,9 @@ func BuildHotspot(r RS) *hotspot.Rule {
 	case 10:
 		// a user-registered behaviour whose generator declines the rule
 		x.Threshold, x.ControlBehavior = 0, DeclinedHotBehavior
+	case 11:
+		// a user-registered behaviour whose generator panics: the load is abandoned (see Aborts)
+		x.Threshold, x.ControlBehavior = 0, PanickingHotBehavior
 	}
 	if r.Var <= 1 {
 		switch r.Hid {
@@ -327,6 +349,9 @@ func BuildBreaker(r RS) *cb.Rule {
 	case 11:
 		// not a number: no count or ratio ever "reaches" it
 		x.MinRequestAmount, x.Threshold = 0, math.NaN()
+	case 12:
+		// a user-registered strategy whose generator panics: the load is abandoned (see Aborts)
+		x.MinRequestAmount, x.Strategy, x.Threshold = 0, PanickingCbStrategy, 0
 	}
 	if r.Var <= 1 {
 		switch r.Hid {
